@@ -928,6 +928,79 @@ def rule_r14(facts, col, rule_id="C08.R14"):
             continue
 
 
+def _mentions_len_of_param(e, idx):
+    for x in walk(e):
+        if x.k == "un" and x.op == "PtrMetadata" and x.a is not None:
+            a = peel(x.a, through_try=False)
+            n = 0
+            while a is not None and a.k in ("ref", "deref", "cast") and n < 4:
+                a = peel(a.a, through_try=False)
+                n += 1
+            if a is not None and a.k == "param" and a.idx == idx:
+                return True
+        if x.k == "call" and (x.q or "").split("::")[-1] == "len" and x.args:
+            a = peel(x.args[0], through_try=False)
+            n = 0
+            while a is not None and a.k in ("ref", "deref", "cast") and n < 4:
+                a = peel(a.a, through_try=False)
+                n += 1
+            if a is not None and a.k == "param" and a.idx == idx:
+                return True
+    return False
+
+
+def rule_r15(facts, col, rule_id="C08.R15"):
+    """a kernel does not choose its code path by how much lies BEHIND the samples it was asked about: where a function is handed
+    an open-ended tail of a slice (`self.filter(&input[i * deci..])` - everything from the current position to the end of what
+    happened to be buffered), the callee has no two-way branch on that parameter's length with both arms returning normally
+    (an `assert!(input.len() >= taps)` has one arm that panics and is fine).  The tail's length depends on how the input was
+    chunked, so a fast path selected by it makes the output depend on chunking (different rounding order, reads past the
+    window that turn a later NaN into an earlier one)."""
+    n = 0
+    for body in facts.bodies:
+        for bb, t in body.calls():
+            tails = []
+            for i, a in enumerate(t["args"]):
+                e = peel(body.operand_expr(a), through_try=False)
+                k_ = 0
+                while e is not None and e.k in ("ref", "deref") and k_ < 4:
+                    e = peel(e.a, through_try=False)
+                    k_ += 1
+                if e is not None and e.k == "call" and (e.q or "").split("::")[-1] in ("index", "index_mut") and len(e.args or []) == 2:
+                    rg = peel(e.args[1], through_try=False)
+                    if rg.k == "agg" and rg.adt == "std::ops::RangeFrom":
+                        tails.append(i)
+            if not tails:
+                continue
+            for q in Body.callee_qs(t):
+                for hb in facts.by_q.get(q, []):
+                    if hb.kind == "closure" or hb.argc != len(t["args"]):
+                        continue
+                    for i in tails:
+                        n += 1
+                        key = "%s:tail-arg%d<-%s" % (hb.q, i, body.q.split("::")[-1])
+                        badsw = None
+                        for sbb in sorted(hb.reachable(0)):
+                            st = hb.term(sbb)
+                            if st["k"] != "switch":
+                                continue
+                            if not _mentions_len_of_param(switch_discr_expr(hb, sbb), i + 1):
+                                continue
+                            arms = [tg for tg, _ in switch_edges(hb, sbb)]
+                            normal = [tg for tg in arms if any(hb.term(x)["k"] == "return" for x in hb.reachable(tg))]
+                            if len(set(normal)) >= 2:
+                                badsw = sbb
+                        if badsw is not None:
+                            col.bad(rule_id, key, hb.where(badsw),
+                                    "%s is called with an open-ended tail of a slice (%s) and branches on that parameter's length with both "
+                                    "arms computing a result: which arm runs depends on how much input happened to be buffered behind the "
+                                    "samples in question, i.e. on chunking" % (hb.q, body.where(bb)), {})
+                        else:
+                            col.ok(rule_id, key, hb.where(), "no result-producing branch on the tail's length")
+    if n == 0:
+        col.ok(rule_id, "no-tail-calls", "src/fir.rs", "no function is handed an open-ended tail of a slice")
+
+
 def from_logging(t):
     sp = t.get("sp") or {}
     return any(x.startswith(("log::", "debug!", "trace!", "info!", "warn!", "error!", "format_args!", "eprintln!", "println!")) or "log" in x
@@ -969,6 +1042,8 @@ def run(ctx):
     ctx.floor("C08.R10", 10, "hand-written work() bodies that consume part of a window")
     rule_r11(facts, ctx)
     ctx.floor("C08.R11", 25, "output commitments (produce/push) in hand-written work() bodies of blocks with an input stream")
+    rule_r15(facts, ctx)
+    ctx.floor("C08.R15", 1, "functions handed an open-ended tail of a slice (Fir::filter from filter_n / filter_n_inplace)")
     rule_r14(facts, ctx)
     ctx.floor("C08.R14", 1, "write windows processed in frames (FftStream: 2 adaptor sites, 1 commit)")
     rule_r13(facts, ctx)
